@@ -29,6 +29,30 @@ type Net struct {
 	Calls      []Call
 	FailDeploy map[string]bool // the node's next Deploy fails (then the flag clears)
 	Dead       map[string]bool // calls to the node fail
+	Hold       bool            // Deploy calls block (after being recorded) until Release
+	held       []chan struct{}
+}
+
+// wait blocks a Deploy call while deployments are held.
+func (n *Net) wait() {
+	if !n.Hold {
+		return
+	}
+	ch := make(chan struct{})
+	n.held = append(n.held, ch)
+	shim.Recv(ch)
+}
+
+// Held is the number of Deploy calls in flight.
+func (n *Net) Held() int { return len(n.held) }
+
+// Release lets every held Deploy call return and stops holding.
+func (n *Net) Release() {
+	n.Hold = false
+	for _, ch := range n.held {
+		shim.Close(ch)
+	}
+	n.held = nil
 }
 
 func NewNet() *Net { return &Net{FailDeploy: map[string]bool{}, Dead: map[string]bool{}} }
@@ -51,6 +75,7 @@ func (o *FakeOp) Deploy(ctx context.Context, req *workerpb.DeployOperatorRequest
 		c.Ckpts = append(c.Ckpts, ck.CheckpointId)
 	}
 	o.Net.Calls = append(o.Net.Calls, c)
+	o.Net.wait()
 	if o.Net.Dead[o.Id] {
 		return errors.New("unreachable")
 	}
@@ -80,6 +105,7 @@ func (s *FakeSR) Deploy(ctx context.Context, req *workerpb.DeploySourceRunnerReq
 		c.Ops = append(c.Ops, n.Id)
 	}
 	s.Net.Calls = append(s.Net.Calls, c)
+	s.Net.wait()
 	if s.Net.Dead[s.Id] {
 		return errors.New("unreachable")
 	}
